@@ -106,6 +106,16 @@ func check(t run.TB, c Case) {
 	if p != nil {
 		run.Fail(t, chk, c, "Len panicked on %q: %v", text, p)
 	}
+	if c.Kind == "schema" {
+		// whatever this measurement left behind (scanners are re-used) must not meet the next one:
+		// a few short texts whose length is known are measured right after it
+		for _, pr := range [][2]string{{"42", "2"}, {"0", "1"}, {"2022\n", "4"}, {"\"a\"", "3"}, {"true", "4"}, {"{}", "2"}, {"@a", "2"}, {"-7", "2"}} {
+			pl, perr, pp := callLen(mk("schema", pr[0]))
+			if pp != nil || perr != nil || fmt.Sprint(pl) != pr[1] {
+				run.Fail(t, chk, c, "after Len(%q): Len(%q)=%d err=%v panic=%v, the text is %s bytes long (trailing blanks aside)", text, pr[0], pl, perr, pp, pr[1])
+			}
+		}
+	}
 	if c.Cut {
 		if err == nil {
 			run.Fail(t, chk, c, "the text %q does not begin with a lexically complete %s, but Len returns %d without error", text, c.Kind, l)
